@@ -1235,7 +1235,8 @@ func fixedHists() []Hist {
 	}
 	st := func(ok bool) Op { return Op{Op: "step", Ok: ok} }
 	var hs []Hist
-	// gap witness (known finding 1): receipts whose sizes fill the limit exactly are skipped but counted
+	// size boundary (fixed finding C32-F1): a receipt whose size fills the limit exactly ends the batch and opens
+	// the next one (before the fix it was counted without being sent); alone it fills the limit and is not passed
 	gap := sm(6)
 	gap[3].Size = 1048576 - 150
 	hs = append(hs, Hist{Stream: "fixed-gap", Ty: 2, Enc: "proto", F2S: 1, Salt: 11, Specs: gap,
@@ -1244,7 +1245,7 @@ func fixedHists() []Hist {
 	gap2[2].Size = 1048576
 	hs = append(hs, Hist{Stream: "fixed-gap", Ty: 2, Enc: "proto", F2S: 1, Salt: 12, Specs: gap2,
 		Ops: []Op{{Op: "grow", N: 4}, {Op: "sub", R0: 1, Hash: true}, st(true), st(true), {Op: "grow", N: 1, Notify: 1}, st(true), st(true)}})
-	// liveness remark: a matching block larger than the limit never advances
+	// liveness remark: a matching block not smaller than the limit never advances
 	big := sm(6)
 	big[2].Size = 1048577
 	hs = append(hs, Hist{Stream: "fixed-stall", Ty: 2, Enc: "proto", F2S: 1, Salt: 13, Specs: big,
